@@ -65,6 +65,7 @@ type Exec struct {
 	witness  map[string]ast.Expr
 	errGlobals map[string]int
 	typeByID map[int]types.Type
+	iptr     map[int]SV // interior pointers boxed into interfaces, by payload term id
 }
 
 func (x *Exec) note(f string, a ...any) { x.notes[fmt.Sprintf(f, a...)] = true }
@@ -597,6 +598,7 @@ func (x *Exec) VerifyFunc(fn *ssa.Function, c *FuncContract) (err error) {
 		st.entry = nil
 		states = next
 	}
+	lets0 := st.lets
 	for k, s1 := range states {
 		// per case: lets, preconditions, entry snapshot
 		vars1 := map[string]SV{}
@@ -604,7 +606,7 @@ func (x *Exec) VerifyFunc(fn *ssa.Function, c *FuncContract) (err error) {
 			vars1[n] = v
 		}
 		s1.lets = map[string]SV{}
-		for n, v := range st.lets {
+		for n, v := range lets0 {
 			s1.lets[n] = v
 		}
 		env := &Env{x: x, st: s1, vars: vars1, pkg: fn.Pkg.Pkg}
@@ -660,6 +662,11 @@ func (x *Exec) finish(st *State, fr *Frame, results []SV, pos token.Pos) {
 		vars[k] = v
 	}
 	bindResults(vars, fr.fn.Signature, results)
+	if os.Getenv("GOWP_DEBUG") != "" {
+		for k, v := range vars {
+			fmt.Fprintf(os.Stderr, "finish var %s = %v\n", k, v.l)
+		}
+	}
 	env := &Env{x: x, st: st, oldSt: st.entry, vars: vars, pkg: fr.fn.Pkg.Pkg}
 	x.applyGsets(st, env, c)
 	for i, en := range c.ensures {
